@@ -55,6 +55,9 @@ type Project struct {
 	// PreCheck: every type object is asked Check() on its own (where it usually fails: the types it names are
 	// not registered on it) before it is registered anywhere. What a type answered alone binds nobody.
 	PreCheck bool `json:"pre_check,omitempty"`
+	// Cross: pairs (i, j) - the object of Types[i] registers the object of Types[j] under its name before the
+	// root registers anything (i = j: a type registered on itself; pairs may close loops among the types)
+	Cross [][2]int `json:"cross,omitempty"`
 }
 
 // names reports whether text mentions the type name (followed by a character that cannot continue it).
@@ -301,6 +304,15 @@ func BuildSharing(p Project, from *Built) *Built {
 		}
 		b.Types[t.Name] = ts
 		objs = append(objs, ts)
+	}
+	for _, c := range p.Cross {
+		if c[0] < 0 || c[1] < 0 || c[0] >= len(p.Types) || c[1] >= len(p.Types) {
+			continue
+		}
+		if js, ok := objs[c[0]].(*jschema.JSchema); ok {
+			name, obj := p.Types[c[1]].Name, objs[c[1]]
+			b.trap("AddType(cross)", func() { _ = js.AddType(name, obj) })
+		}
 	}
 	if p.PreCheck {
 		for _, t := range p.Types {
